@@ -217,6 +217,48 @@ def part_tracker(args, out):
     os._exit(0)
 
 
+def part_startup_signals(args, out):
+    """C12: SIGINT / SIGTERM delivered while the tracker is at a named point of its start-up
+    (the plan pauses it there) never terminate it, and it works afterwards."""
+    from loky.backend import resource_tracker as rt
+    tok = args["token"]
+    rt.ensure_running()
+    tp = rt._resource_tracker._pid
+    t0 = time.time()
+    while not os.path.exists(tok + ".reached") and time.time() - t0 < 20:
+        time.sleep(0.01)
+    reached = os.path.exists(tok + ".reached")
+    for s_ in (signal.SIGINT, signal.SIGTERM):
+        os.kill(tp, s_)
+    time.sleep(0.3)
+    open(tok + ".go", "w").close()
+    time.sleep(0.7)
+    try:
+        os.kill(tp, 0)
+        alive = True
+    except OSError:
+        alive = False
+    try:
+        zombie = open(f"/proc/{tp}/stat").read().split(")")[-1].split()[0] == "Z"
+    except OSError:
+        zombie = False
+    # still serving: a counted file is destroyed at the request that brings it to zero
+    path = args["scratch"]
+    open(path, "w").write("x")
+    works = None
+    if alive and not zombie:
+        rt.register(path, "file")
+        rt.maybe_unlink(path, "file")
+        t0 = time.time()
+        while os.path.exists(path) and time.time() - t0 < 5:
+            time.sleep(0.05)
+        works = not os.path.exists(path)
+    with open(out, "w") as f:
+        json.dump(dict(reached=reached, alive=alive and not zombie, works=works,
+                       same_tracker=rt._resource_tracker._pid == tp), f)
+    os._exit(0)
+
+
 def child_sleeper(path, d):
     time.sleep(d)
 
@@ -332,7 +374,8 @@ def main():
     wd = threading.Timer(float(args.get("watchdog", 120)), lambda: os._exit(97))
     wd.daemon = True
     wd.start()
-    dict(sem=part_sem, tracker=part_tracker, eol=part_eol, life=part_life)[part](args, out)
+    dict(sem=part_sem, tracker=part_tracker, eol=part_eol, life=part_life,
+         startup=part_startup_signals)[part](args, out)
 
 
 if __name__ == "__main__":
